@@ -171,13 +171,19 @@ Theorem c14_notification_error_discarded : forall r e, is_nil e = false -> notif
 Proof. exact notify_error_discarded. Qed.
 Print Assumptions c14_notification_error_discarded.
 
-Theorem c14_notification_reply_leak :
+(* a notification never gets a reply: neither for its handler's error nor (fix F15) for a result
+   that cannot be marshalled *)
+Theorem c14_notification_never_replies : forall r e, notify r e = None.
+Proof. exact notify_never_replies. Qed.
+Print Assumptions c14_notification_never_replies.
+
+Theorem c14_refuted_without_F15 :
   let why := EWrap [106]%N (EJrpc ParseError [112]%N []) in
-  notify (ResBad why) enil =
+  notify_gen false (ResBad why) enil =
     Some {| we_code := ParseError;
             we_msg := [106; 58; 32; 91; 45; 51; 50; 55; 48; 48; 93; 32; 112]%N; we_data := [] |}.
-Proof. exact notify_reply_leak. Qed.
-Print Assumptions c14_notification_reply_leak.
+Proof. exact notify_reply_leak_without_F15. Qed.
+Print Assumptions c14_refuted_without_F15.
 
 (* -- cancelling the request does not replace the error its handler returns ----------------------- *)
 
